@@ -34,8 +34,18 @@ use undermoon::proxy::service::ServerProxyService;
 
 static HOST_BLOCK: AtomicU64 = AtomicU64::new(0);
 
+/// A free port that no other scenario thread of this process has been given.
 pub fn free_port() -> Option<u16> {
-    std::net::TcpListener::bind("0.0.0.0:0").ok().and_then(|l| l.local_addr().ok()).map(|a| a.port())
+    static HANDED_OUT: std::sync::Mutex<Vec<u16>> = std::sync::Mutex::new(Vec::new());
+    for _ in 0..50 {
+        let p = std::net::TcpListener::bind("0.0.0.0:0").ok().and_then(|l| l.local_addr().ok()).map(|a| a.port())?;
+        let mut seen = HANDED_OUT.lock().ok()?;
+        if !seen.contains(&p) {
+            seen.push(p);
+            return Some(p);
+        }
+    }
+    None
 }
 
 /// One request / one reply over a fresh TCP connection. None = nobody answered.
